@@ -75,7 +75,10 @@ def run(res):
         f = rng.choice(base)
         ops = gen_history(f, rng, True)
         qs.append("rhist %s %d %s" % (f["dt"], rng.choice([1, 2, 30, 100000]), " ".join(ops)))
+    import time
+    t0 = time.time()
     ia = lib.run_impl(qs, shards=8, timeout=2400)
+    t1 = time.time()
     # the model is ~30x slower than the library: the quick tier diffs every 4th mutant
     step = 1 if thorough else 4
     # (mutants that make the library produce more than ~50k numbers are left to the oracle)
@@ -85,7 +88,9 @@ def run(res):
     for i, m in zip(midx, msub):
         ma[i] = m
     res.count("model_diffed", len(msub))
+    t2 = time.time()
     ir = lib.run_impl(qs[::5], release=True, shards=8, timeout=2400)
+    res.notes.append("wall: debug impl %.0fs (%d queries), model %.0fs (%d), release impl %.0fs (%d)" % (t1 - t0, len(qs), t2 - t1, len(midx), time.time() - t2, len(qs[::5])))
     pbad, kbad = [], []
     for q, a, m in zip(qs, ia, ma):
         res.seen(q[:6000])
